@@ -44,6 +44,9 @@ theorem incPrim_dispatched (cfg : Cfg) (s : St) (w i : Nat) : (incPrim cfg s w i
 theorem removeNext_dispatched (s : St) (w : Nat) : (removeNext s w).dispatched = s.dispatched := by
   unfold removeNext; simp only; rw [setAvail_dispatched]
 
+theorem swapRemove_length (l : List Nat) (i : Nat) : (swapRemove l i).length = l.length - 1 := by
+  simp [swapRemove]
+
 /-- what one `send_connection` does to the dispatch log and the no-worker drop list -/
 theorem sendConnection_log (cfg : Cfg) (s : St) (c : Conn) (hnf : (sendConnection cfg s c).1.fault = none) :
     ((sendConnection cfg s c).2 = true ∧
@@ -69,13 +72,13 @@ theorem sendConnection_log (cfg : Cfg) (s : St) (c : Conn) (hnf : (sendConnectio
         refine ⟨trivial, Or.inl ⟨w, rfl, hal, ?_⟩⟩
         rw [setNext_dispatched, incPrim_dispatched, yieldPt_dispatched]; rfl
       · have hal' : (s.wk w).alive = false := by simpa using hal
-        simp only [hal', Bool.false_eq_true, ↓reduceIte]
+        simp only [hal', Bool.false_eq_true, ↓reduceIte, sendFail]
         have hlen : (removeNext s w).handles.length < s.handles.length := by
           have hlt : s.next < s.handles.length := by
             have := List.getElem?_eq_some_iff.mp hh; exact this.1
           unfold removeNext setAvail
           simp only
-          split <;> simp <;> omega
+          split <;> simp [swapRemove_length] <;> omega
         split
         · rename_i he
           left
